@@ -21,6 +21,26 @@ func Leaf() *ref.Struct {
 
 var leaf = Leaf()
 
+// LeafFixed: a struct with fixed-size, always-written fields only (no variable-length part).
+func LeafFixed() *ref.Struct {
+	return &ref.Struct{Fields: []*ref.Field{
+		{ID: 1, Req: ref.ReqDefault, Type: &ref.Type{Kind: ref.KI64}},
+		{ID: 2, Req: ref.ReqDefault, Type: &ref.Type{Kind: ref.KBool}},
+	}}
+}
+
+// LeafHolder: fixed-size fields plus the unknown-fields holder.
+func LeafHolder() *ref.Struct {
+	return &ref.Struct{Unknown: true, Fields: []*ref.Field{
+		{ID: 1, Req: ref.ReqDefault, Type: &ref.Type{Kind: ref.KI16}},
+	}}
+}
+
+var (
+	leafFixed  = LeafFixed()
+	leafHolder = LeafHolder()
+)
+
 func Sc(k ref.Kind) *ref.Type       { return &ref.Type{Kind: k} }
 func StPtr(s *ref.Struct) *ref.Type { return &ref.Type{Kind: ref.KStruct, St: s, Ptr: true} }
 func StVal(s *ref.Struct) *ref.Type { return &ref.Type{Kind: ref.KStruct, St: s} }
@@ -30,13 +50,14 @@ func MapOf(k, v *ref.Type) *ref.Type {
 	return &ref.Type{Kind: ref.KMap, Key: k, Elem: v}
 }
 
-// T1 = S9 ∪ {*St, St}.
+// T1 = S9 ∪ {*St, St} for three leaf structs: mixed (fixed + optional
+// pointer), fixed-size-only, and fixed-size with the unknown-fields holder.
 func T1() []*ref.Type {
 	var r []*ref.Type
 	for _, k := range S9 {
 		r = append(r, Sc(k))
 	}
-	return append(r, StPtr(leaf), StVal(leaf))
+	return append(r, StPtr(leaf), StVal(leaf), StPtr(leafFixed), StVal(leafFixed), StPtr(leafHolder), StVal(leafHolder))
 }
 
 // K9 = the eight scalar key kinds plus *struct.
